@@ -283,8 +283,12 @@ def deletion_only(ctx, rule, n):
             for a, b in ((x[2], x[3]), (x[3], x[2])):
                 if b[0] == "const" and isinstance(b[1], str) and a[0] == "item" and a[1][0] == "call" and a[1][1] in ("os.path.splitext", "posixpath.splitext"):
                     stems.add(b[1])
+    from . import tables as TB
     ctx.ob(rule, fn + "/path/index-stems", stems <= {"index", "default"} and bool(stems),
-           "normalize_url drops trailing pages named %s: only index/default pages are documented as irrelevant" % sorted(stems - {"index", "default"}), site)
+           "normalize_url drops trailing pages named %s: only index/default pages are documented as irrelevant" % sorted(stems - {"index", "default"}), site,
+           cells=TB.expect(ctx.repo, "normalize_url", "normalize_url", [("http://a.com/x/index.html", "a.com/x"), ("http://a.com/x/default.aspx", "a.com/x"), ("http://a.com/x/home.html", "a.com/x/home.html"),
+                                                                        ("http://a.com/x/main.php", "a.com/x/main.php"), ("http://a.com/x/indexes.html", "a.com/x/indexes.html"), ("http://a.com/x/welcome", "a.com/x/welcome"),
+                                                                        ("http://a.com/x/index.html/y", "a.com/x/index.html/y"), ("http://a.com/index", "a.com")]))
 
 
 def mistakes_language(ctx, rule):
